@@ -50,7 +50,7 @@ def vec_queries(Query, ops, cfgs, timeout=300, unwind=None):
             if 'input' in op or d['VF_E'] in ('R', 'X', 'Y'): timeout = max(timeout, 900)
             qs.append(Query('%s.%s' % (op, cfg_name(d)), 'vec_ops.cpp', 'h_' + op, defs=d, arena=arena_for(d), unwind=unwind or d['VF_MAXM'] + 2, timeout=timeout,
                             mem_gb=(5 if d['VF_E'] in ('R', 'X', 'Y') else 3) * (4 if op == 'insert_range_input' else 2 if ('input' in op or (d['VF_E'] in ('R', 'X', 'Y') and op.startswith(('insert_n', 'insert_range', 'insert_il', 'alias_insert_n')))) else 1),
-                            optional_reach=(2,) if op in ('shrink_to_fit', 'reserve') else (),
+                            optional_reach=(2,) if (op in ('shrink_to_fit', 'reserve') or (op.startswith('alias_') and d['VF_KIND'] == 2)) else (),   # a FixedCapacityVector never reallocates
                             symbolic='state class (inline/heap), size, capacity, element values, position, count, value',
                             bounds=dict(N=d['VF_N'], size_max=d.get('VF_CMAX', d['VF_N'] + 3), capacity_max=d.get('VF_CMAX', d['VF_N'] + 3), count_max=d.get('VF_COUNT_MAX', 3), values='8-bit')))
     return qs
@@ -216,6 +216,7 @@ def smallset_plan(Query, pid, tier):
     if pid == 'C04':
         q += ss_queries(Query, ['node'], forms(flat[:1], (0,)) if quick else forms(flat[:2], (0, 1, 2, 3)), timeout=1200, mem_gb=8)
         q += ss_queries(Query, ['swap'], [ss_cfg(2, 0, 0, a, b) for a in (0, 1) for b in (0, 1)])
+        q += ss_queries(Query, ['compare_eq'], [ss_cfg(2, 0, 0, a, b) for a in (0, 1) for b in (0, 1)], timeout=900)
         q += ss_queries(Query, ['compare'], [ss_cfg(2, 0, 0, 0, 0), ss_cfg(2, 0, 0, 0, 1), ss_cfg(2, 0, 0, 1, 0)] + ([] if quick else [ss_cfg(2, 0, 0, 1, 1)]), timeout=1200, mem_gb=6)
     return q
 
@@ -336,7 +337,7 @@ def _plan(pid, tier, Query):
                 if f: d['VF_FAULTS'] = f
                 for op in ops:
                     if it == 3 and op != 'uninitialized_copy': continue
-                    opt = (2,) if not f or op in ('uninitialized_move', 'uninitialized_relocate', 'relocate_at', 'destroy') else ()
+                    opt = (2,) if not f or it == 3 or op in ('uninitialized_move', 'uninitialized_relocate', 'relocate_at', 'destroy') else ()   # move_iterator: moves are noexcept, no throw to reach
                     qs.append(Query('ma_%s.%s_it%d_%s%s' % (op, e, it, std.replace('c++', 'cxx'), '_f' if f else ''), 'mem_algos.cpp', 'h_' + op, defs=d, std=std, arena=(2, 16),
                                     unwind=7, timeout=300, mem_gb=3, optional_reach=opt,
                                     symbolic='length 0..4, element values, form (range / count), fault index', bounds=dict(length_max=4, faults_max=f or 0, standard=std)))
@@ -357,6 +358,8 @@ def _plan(pid, tier, Query):
                             arena=(3, (cap * ESZ[e] + 15) // 16 * 16), unwind=nmax + 2, timeout=900, mem_gb=6,
                             symbolic='number of push_backs n, start state', bounds=dict(n_max=nmax, start=['empty', 'symbolic inline/heap state', 'after reserve(5)', 'after reserve(8)'][start])))
         qs += vec_queries(Query, ['reserve', 'shrink_to_fit'], [vec_cfg(1, 2, 'B'), vec_cfg(0, 0, 'B', s='uint32_t'), vec_cfg(1, 2, 'X', ak=2, cls=1, cmax=4), vec_cfg(1, 3, 'R', ak=0, cmax=5)])
+        # growth factor of every growing step (bulk growth with size < capacity included)
+        qs += vec_queries(Query, ['insert_n', 'append_n_val', 'resize', 'assign_n', 'insert_range_fwd', 'push_back_copy', 'emplace_back'], [vec_cfg(1, 2, 'B', cls=1, cmax=6), vec_cfg(0, 0, 'B', s='uint32_t', cls=1, cmax=6)])
         return qs
     if pid == 'C09':
         F = 5
@@ -372,7 +375,10 @@ def _plan(pid, tier, Query):
         if not quick: cfgs += [vec_cfg(0, 0, 'B', s='uint32_t'), vec_cfg(2, 3, 'X'), vec_cfg(2, 3, 'B'), vec_cfg(1, 3, 'R', ak=0), vec_cfg(1, 3, 'T3', ak=1, s='uint16_t'), vec_cfg(0, 0, 'X', ak=1, s='uint32_t', cls=1)]
         return vec_queries(Query, ALIAS_OPS, cfgs, timeout=600)
     if pid == 'C13':
-        return swap2_queries(Query, tier)
+        lim = {'SW_LIMIT': '', 'VF_E': 'B', 'A_KIND': 0, 'A_N': 0, 'A_S': 'uint8_t', 'A_AK': 0, 'A_CLS': 1, 'B_KIND': 0, 'B_N': 0, 'B_S': 'uint32_t', 'B_AK': 0, 'B_CLS': 1, 'VF_CMAX': 4, 'VF_MAXM': 6}
+        return swap2_queries(Query, tier) + [Query('swap2_limit.vecu8_vecu32_B', 'vec_swap2.cpp', 'h_swap2_limit', defs=lim, arena=(2, 272), unwind=6, timeout=900, mem_gb=4,
+                                                   symbolic='8-bit vector: capacity <= 6; 32-bit vector: capacity 250..262, size within 4 of it, arbitrary contents; direction of the call',
+                                                   bounds=dict(note='capacities around the 8-bit maximum: the exchange must throw exactly when the 32-bit capacity exceeds 255'))]
     if pid == 'C14':
         R = {'VF_RELOC': ''}
         cfgs = [vec_cfg(0, 0, 'X', ak=1, s='uint32_t', cls=1, extra=R), vec_cfg(1, 2, 'B', extra=R), vec_cfg(1, 3, 'R', extra=R), vec_cfg(2, 3, 'R', extra=R)]
